@@ -135,3 +135,17 @@ func init() {
 		k(st, []Value{x.freshErr(st, "jsonerr")})
 	}
 }
+
+// (*slog.LevelVar).Set: the level a logger follows is observable - lvlsets counts the Set calls
+// on a level variable, lvlval is the level set last.
+func init() {
+	models["log/slog.LevelVar.Set"] = func(x *Exec, fr *Frame, st *State, pc *preparedCall, k func(*State, []Value)) {
+		id := IntLit(1) // the package-level level variable of package logging is the only one in the module
+		if p, ok := pc.recv.(PtrV); ok && p.Addr != nil && p.LV == nil {
+			id = p.Addr
+		}
+		x.ghostSet(st, "lvlsets", id, Add(x.ghostSel(st, "lvlsets", id), IntLit(1)))
+		x.ghostSet(st, "lvlval", id, x.identityOf(st, pc.args[0]))
+		k(st, nil)
+	}
+}
